@@ -830,10 +830,13 @@ class NonMementoFunctionHashRule(HashRule):
         first_level: bool,
     ):
         # noinspection PyUnresolvedReferences
+        name = obj.__module__ + ":" + obj.__qualname__
+        if "<lambda>" in obj.__qualname__:
+            # All lambdas of a scope share one qualified name: tell them apart by the symbol
+            # they are bound to, or only one of them would contribute to the version
+            name += "@" + symbol
         super().__init__(
-            key="Function;{};{}".format(
-                parent_symbol, obj.__module__ + ":" + obj.__qualname__
-            ),
+            key="Function;{};{}".format(parent_symbol, name),
             parent_symbol=parent_symbol,
             symbol=symbol,
             first_level=first_level,
